@@ -356,7 +356,7 @@ class AsmData:
 
 
 FCC_STRINGS = ["HELLO WORLD", "A" * 255, "a b  c   d", "x;y", "tab\there", "1,2,3", "[brackets]", "it's", "100%", "~|{}", "A", "9", "X Y Z",
-               "ABCDEFGHIJKLMNOPQRSTUVWXYZ0123456789", "lower case only", "PCR", "A,X"]
+               "ABCDEFGHIJKLMNOPQRSTUVWXYZ0123456789", "lower case only", "PCR", "A,X", "a  0", "two   gaps  here"]
 
 
 def _csplit(c):
